@@ -43,7 +43,7 @@ theorem fresh_idle : Idle fresh := ⟨rfl, rfl, rfl, rfl, rfl⟩
 
 theorem send_idle (s : S) (n : String) (h : Idle s) :
     ∃ s', send s (.run n) = .ok s' ∧ InFlight s' n := by
-  obtain ⟨pending, ended, alive, toWorker, toParent, joined⟩ := s
+  obtain ⟨pending, ended, alive, toWorker, toParent, joined, kept⟩ := s
   obtain ⟨h1, h2, h3, h4, h5⟩ := h
   simp only at h1 h2 h3 h4 h5
   subst h1 h2 h3 h4 h5
@@ -51,7 +51,7 @@ theorem send_idle (s : S) (n : String) (h : Idle s) :
 
 theorem get_inflight (s : S) (n : String) (h : InFlight s n) :
     ∃ s', get s = .ok (s', n) ∧ Idle s' := by
-  obtain ⟨pending, ended, alive, toWorker, toParent, joined⟩ := s
+  obtain ⟨pending, ended, alive, toWorker, toParent, joined, kept⟩ := s
   obtain ⟨h1, h2, h3, h4, h5⟩ := h
   simp only at h1 h2 h3 h4 h5
   subst h1 h2 h3 h4 h5
@@ -64,7 +64,7 @@ theorem send_while_pending_rejected (s : S) (n : String) (c : Cmd) (h : InFlight
 
 /-- **`end()` from idle** -/
 theorem stop_idle (s : S) (h : Idle s) : ∃ s', stop s = .ok s' ∧ Ended s' := by
-  obtain ⟨pending, ended, alive, toWorker, toParent, joined⟩ := s
+  obtain ⟨pending, ended, alive, toWorker, toParent, joined, kept⟩ := s
   obtain ⟨h1, h2, h3, h4, h5⟩ := h
   simp only at h1 h2 h3 h4 h5
   subst h1 h2 h3 h4 h5
@@ -72,11 +72,22 @@ theorem stop_idle (s : S) (h : Idle s) : ∃ s', stop s = .ok s' ∧ Ended s' :=
 
 /-- **`end()` with an update in flight**: the pending result is collected first -/
 theorem stop_inflight (s : S) (n : String) (h : InFlight s n) : ∃ s', stop s = .ok s' ∧ Ended s' := by
-  obtain ⟨pending, ended, alive, toWorker, toParent, joined⟩ := s
+  obtain ⟨pending, ended, alive, toWorker, toParent, joined, kept⟩ := s
   obtain ⟨h1, h2, h3, h4, h5⟩ := h
   simp only at h1 h2 h3 h4 h5
   subst h1 h2 h3 h4 h5
   exact ⟨_, rfl, rfl, rfl, rfl, rfl, rfl⟩
+
+/-- **an update due in the batch that ends its process is still collected**: after `end()` with a
+command in flight, the engine's `get_command_result()` returns exactly the result of that command
+(and a further `get` finds nothing). -/
+theorem get_after_stop_returns_the_pending_result (s : S) (n : String) (h : InFlight s n) :
+    ∃ s1 s2, stop s = .ok s1 ∧ get s1 = .ok (s2, n) ∧ s2.kept = none := by
+  obtain ⟨pending, ended, alive, toWorker, toParent, joined, kept⟩ := s
+  obtain ⟨h1, h2, h3, h4, h5⟩ := h
+  simp only at h1 h2 h3 h4 h5
+  subst h1 h2 h3 h4 h5
+  exact ⟨_, _, rfl, rfl, rfl⟩
 
 /-- **a second `end()` is a no-op** -/
 theorem stop_twice (s : S) (h : Ended s) : stop s = .ok s := by
